@@ -601,4 +601,25 @@ def breakScript (bp : Int) (tags : List StageTag) : List StageTag × Option (Lis
   else if bp < 0 then (tags, none)
   else (tags.take bp.toNat, some (tags.drop bp.toNat))
 
+/-- what `GetBreakpoint` sees of a modelled stage -/
+def StageK.tag {V} : StageK V → StageTag
+  | .line _ _ => .line
+  | .labelFilter _ => .labelFilter
+  | .parser .json => .jsonNoParams
+  | .parser (.jsonParams _) => .jsonParams
+  | .parser .logfmt => .logfmt
+  | .parser (.logfmtParams _) => .logfmt
+  | .labelFormat _ => .labelFormat
+  | .lineFormat _ => .lineFormat
+  | .drop _ _ => .drop
+  | .unwrap _ => .unwrap
+
+/-- `logql_transpiler_v2.Plan` on a pipeline of modelled stages: `GetBreakpoint`, then `breakScript` — the stages
+    handed to `clickhouse_planner.Plan` and, when the pipeline is split, the stages handed to `internal_planner.Plan`.
+    The second component is also *what is left in the parsed script object afterwards*: `breakScript` does not copy,
+    it assigns `_script.Pipelines = _script.Pipelines[breakpoint:]` in the script it was given. -/
+def splitPipeline {V} (ss : List (StageK V)) : List (StageK V) × Option (List (StageK V)) :=
+  let bp := getBreakpoint (ss.map StageK.tag) false
+  if bp < 0 then (ss, none) else (ss.take bp.toNat, some (ss.drop bp.toNat))
+
 end Qryn.Read
